@@ -109,7 +109,8 @@ func init() {
 			}
 			// an iteration that outlasts the run's own duration and ends during the completion wait: its duration is its own
 			for i := 0; i < map[string]int{"quick": 3, "thorough": 12}[tier]; i++ {
-				cse := core.MkCase("C17", "outlast", i, seed, map[string]int{"max_ms": 150 + 100*(i%3), "body_ms": 600 + 150*(i%4), "mode": i % 3})
+				// (every third case: the iteration even outlives the completion timeout of 150 ms; whenever it is recorded, then whole)
+				cse := core.MkCase("C17", "outlast", i, seed, map[string]int{"max_ms": 150 + 100*(i%3), "body_ms": 600 + 150*(i%4), "mode": i % 3, "short_wait": map[bool]int{true: 1, false: 0}[i%3 == 1]})
 				cse.Race = i%2 == 0
 				cse.TimeoutMS = 60000
 				cs = append(cs, cse)
@@ -618,9 +619,43 @@ func c17Outlast(c *core.Case, o *core.Outcome) {
 		y := fmt.Sprintf("scenario: verifScenario\nlimits:\n  max-duration: 30s\n  concurrency: 1\n  max-iterations: 0\n  ignore-dropped: true\ndefault:\n  distribution: none\n  jitter: 0\nstages:\n- duration: %dms\n  mode: users\n", pp["max_ms"])
 		spec = engine.Spec{Mode: "file", YAML: y, IgnoreDropped: true, CompletionMS: 5000, Concurrency: 1, MaxDurationMS: 30000}
 	}
+	if pp["short_wait"] == 1 {
+		spec.CompletionMS = 150
+	}
 	r := engine.Execute(context.Background(), spec, l, scenario, nil, nil)
 	if r.NewErr != nil {
 		o.Inconc("harness: cannot build run: %v", r.NewErr)
+		return
+	}
+	if pp["short_wait"] == 1 {
+		// the run gave up waiting; the iteration ends on its own a little later and is (or is not) recorded then
+		time.Sleep(time.Duration(pp["body_ms"]+200) * time.Millisecond)
+		mu.Lock()
+		defer mu.Unlock()
+		desc := fmt.Sprintf("mode=%s run ends after %d ms, bodies take %d ms, completion timeout 150 ms (expired)", spec.Mode, pp["max_ms"], pp["body_ms"])
+		fams, err := engine.Gather(r.Registry)
+		if err != nil || len(own) == 0 {
+			o.Inconc("nothing to compare (%s)", desc)
+			return
+		}
+		var sum float64
+		var cnt uint64
+		for _, sr := range fams[engine.IterationFamily] {
+			if sr.Labels["stage"] == "iteration" && (sr.Labels["result"] == "success" || sr.Labels["result"] == "fail") {
+				sum += sr.Sum
+				cnt += sr.Count
+			}
+		}
+		var ownSum time.Duration
+		for _, d := range own {
+			ownSum += d
+		}
+		if cnt == uint64(len(own)) && sum < float64(ownSum) {
+			o.Violate("outlast-timeout:"+desc, "%d iterations took %v in all by their own clocks (the last one outlived the completion timeout); the %d exported samples add up to %v: an iteration was recorded shorter than its body (%s)", len(own), ownSum, cnt, time.Duration(sum), desc)
+			return
+		}
+		o.AddObs("measured_iterations", int64(len(own)))
+		o.Sig("outlast:mode=%s:short-wait", spec.Mode)
 		return
 	}
 	mu.Lock()
